@@ -1,10 +1,12 @@
 //! `vh <command> '<json args>'` — harness entry points used by /verif/check.
 mod controller;
 mod probes;
+mod sched;
 
 use controller::{Config, Policy};
 use grevm::verif::group;
 use probes::*;
+use grevm::TxExecutionOutcome;
 use serde_json::{Value, json};
 use std::{
     fs::File,
@@ -317,6 +319,16 @@ fn cmd_dep(a: &Value) -> Value {
                 };
                 let mut h = sc.clone();
                 h["executions"] = json!(o.executions);
+                // record form of the attempts for the trace specification
+                h["attempts"] = json!(sc["attempts"].as_array().unwrap().iter().map(|l| {
+                    l.as_array().unwrap().iter().map(|a| {
+                        let a = a.as_str().unwrap();
+                        match a.split_once(':') {
+                            Some((k, b)) => json!({"k": k, "b": b.parse::<i64>().unwrap()}),
+                            None => json!({"k": a, "b": -1}),
+                        }
+                    }).collect::<Vec<_>>()
+                }).collect::<Vec<_>>());
                 (o.record, h, violation)
             },
             &mut out,
@@ -325,6 +337,107 @@ fn cmd_dep(a: &Value) -> Value {
         all.push(res);
     }
     json!({"scripts": all, "trace_runs": out.runs, "trace_events": out.events})
+}
+
+static PARTIAL: std::sync::Mutex<Option<Value>> = std::sync::Mutex::new(None);
+static FATAL: std::sync::Mutex<Option<(controller::Verdict, controller::RunRecord)>> = std::sync::Mutex::new(None);
+
+/// Called from the controller's fatal handler (a deadlock / step bound inside a scheduler run): the
+/// stuck threads cannot be recovered, so report what was gathered so far and leave.
+pub fn fatal_exit() -> ! {
+    let mut res = PARTIAL.lock().unwrap().take().unwrap_or_else(|| json!({}));
+    if let Some((v, rec)) = FATAL.lock().unwrap().take() {
+        let cur = res["current"].clone();
+        let evs: Vec<Value> = rec.events.iter().rev().take(80).rev().map(|e| e.to_json()).collect();
+        res["fatal"] = json!({"verdict": verdict_json(&Some(v)), "schedule": rec.schedule, "last_events": evs,
+            "scenario": cur});
+    }
+    println!("{res}");
+    std::process::exit(0);
+}
+
+fn cmd_sched(a: &Value) -> Value {
+    use sched::*;
+    let groups = groups_of(&a["groups"]);
+    let workers = a["workers"].as_u64().unwrap_or(2) as usize;
+    let runs = a["max_runs"].as_u64().unwrap_or(50) as usize;
+    let seed = a["seed"].as_u64().unwrap_or(1);
+    let max_steps = a["max_steps"].as_u64().unwrap_or(200_000) as usize;
+    let mut out = TraceOut::new(a["out"].as_str().unwrap());
+    let mut per = Vec::new();
+    let mut violations: Vec<Value> = Vec::new();
+    let fatal_slot = std::sync::Arc::new(std::sync::Mutex::new(None));
+    for sc in a["scenarios"].as_array().unwrap() {
+        let s = Scenario::from_json(sc);
+        let mut uni: Vec<String> = Vec::new();
+        for i in 0..s.locs.len() {
+            uni.push(format!("S:{:x}:{:x}", holder(), i));
+            uni.push(format!("R:{:x}", holder()));
+        }
+        uni.push(format!("B:{:x}", holder()));
+        uni.push(format!("B:{:x}", driver()));
+        for i in 0..s.n {
+            uni.push(format!("B:{:x}", grevm::test_utils::common::account::mock_eoa_address(i)));
+        }
+        uni.sort();
+        uni.dedup();
+        let mut reference = sched::reference(&s, &uni);
+        let mut distinct = std::collections::HashSet::new();
+        let mut steps = 0usize;
+        let mut sample = Value::Null;
+        for k in 0..runs {
+            let policy = match a["policy"].as_str().unwrap_or("pct") {
+                "replay" => policy_of(a, vec![]),
+                "random" => Policy::Random,
+                _ => if k % 3 == 2 { Policy::Random } else { Policy::Pct { depth: 2 + k % 4, est_len: 150 * s.n } },
+            };
+            let run_seed = seed.wrapping_mul(7919).wrapping_add(k as u64);
+            let cfg = Config { groups, policy, seed: run_seed, max_steps, preemption_bound: None };
+            *PARTIAL.lock().unwrap() = Some(json!({"scenarios": per, "violations": violations, "trace_runs": out.runs,
+                "trace_events": out.events, "current": {"scenario": sc, "seed": run_seed, "workers": workers, "run": k}}));
+            let fs = fatal_slot.clone();
+            let o = run_scheduler(&s, cfg, workers, a["force_sequential"].as_bool().unwrap_or(false), fs);
+            if let Some(f) = fatal_slot.lock().unwrap().take() {
+                *FATAL.lock().unwrap() = Some(f);
+            }
+            steps += o.record.steps;
+            distinct.insert(o.record.schedule.join(","));
+            // extend the reference universe if the run touched something unexpected
+            let seen = universe(&o.record);
+            if seen.iter().any(|l| !uni.contains(l)) {
+                for l in seen {
+                    if !uni.contains(&l) {
+                        uni.push(l);
+                    }
+                }
+                uni.sort();
+                reference = sched::reference(&s, &uni);
+            }
+            let evs = trace_events(&s, &o.record);
+            let found = monitors(&s, &reference, &o);
+            let header = json!({
+                "name": s.name, "n": s.n, "workers": workers,
+                "locs": uni.iter().map(|l| loc_name(&s, l)).collect::<Vec<_>>(),
+                "ref": reference.states.iter().map(|m| m.iter().map(|(l, v)| (loc_name(&s, l), json!(v))).collect::<serde_json::Map<_, _>>()).collect::<Vec<_>>(),
+                "refkind": reference.steps.iter().map(|st| match &st.outcome { Some(TxExecutionOutcome::Executed(_)) => "executed", _ => "skipped" }).collect::<Vec<_>>(),
+                "fatal_at": reference.error.as_ref().map_or(s.n as i64, |(k, _)| *k as i64),
+                "result": match &o.result { Ok(()) => json!("ok"), Err((k, e)) => json!({"err": k, "text": e}) },
+            });
+            if sample.is_null() {
+                sample = json!({"header": header, "schedule_len": o.record.schedule.len(), "events": evs.iter().take(40).collect::<Vec<_>>()});
+            }
+            if found.is_empty() {
+                out.run(header, &evs);
+            } else if violations.len() < 8 {
+                for (prop, what) in found {
+                    violations.push(json!({"property": prop, "what": what, "scenario": sc, "seed": run_seed, "workers": workers,
+                        "schedule": o.record.schedule, "events": evs.iter().rev().take(120).rev().collect::<Vec<_>>()}));
+                }
+            }
+        }
+        per.push(json!({"scenario": s.name, "runs": runs, "distinct_schedules": distinct.len(), "steps": steps, "sample": sample}));
+    }
+    json!({"scenarios": per, "violations": violations, "trace_runs": out.runs, "trace_events": out.events})
 }
 
 fn main() {
@@ -343,6 +456,7 @@ fn main() {
         "wait" => cmd_wait(&a),
         "cursor" => cmd_cursor(&a),
         "dep" => cmd_dep(&a),
+        "sched" => cmd_sched(&a),
         other => {
             eprintln!("unknown command {other}");
             std::process::exit(2);
